@@ -4,14 +4,41 @@ import json
 
 CHECKS = {
     "C17": dict(
-        text="Coq theorems (Props/C17.v, closed under the global context) over all documents, version histories "
-             "of any length and all split points of an executable model of convert_dict/_convert/deep_get; the model "
-             "is tied to typedpy by differential correspondence evaluated inside Coq (vm_compute) on generated histories, "
-             "and the statement's clauses are evaluated on the implementation to find replays.",
-        design="DESIGN.md §6 C17",
-        note="Trusted: Coq kernel + vm_compute; hand-written model Ser/Versioned.v (validated by correspondence, not derived); "
-             "FunctionCall functions assumed pure; harness generators/reifier; CPython.",
-        technique="Coq proof (induction over version history) + model/implementation correspondence in vm_compute"),
+        text="Coq theorems (Props/C17.v, closed under the global context). (1) Over an executable model of "
+             "convert_dict/_convert/deep_get, for all documents, version histories of any length, all start versions and all "
+             "split points, any family of pure user functions, and any setting of the four integer literals of convert_dict "
+             "that passes cd_params_ok: exact-suffix application, result version, two-stage composition, latest = identity. "
+             "(2) Over a model of deserialize_structure_internal for a Versioned class (prelude, kept non-field keys, "
+             "construct_fields_map, the direct_trusted_mapping branch, Versioned.__init__ + constructor; fields that pass "
+             "values through; entry points Deserializer.deserialize / deserialize_structure; every keep_undefined / "
+             "_additional_properties / ignore-invalid setting), parametric in the table of read sites: if every read of a "
+             "document variable after the prelude is of the converted document, then deserializing an older document equals "
+             "deserializing its conversion, the instance carries the latest version, and no attribute of the instance comes "
+             "from anywhere but the converted document; witnesses (..._refuted) for a table entry that reads the caller's "
+             "document and for a constructor that only fills in a missing version. The integer literals of convert_dict, "
+             "the shape of Versioned.__init__, the Versioned prelude and EVERY read site of a document variable in "
+             "deserialize_structure_internal are re-read from /repo's AST on every run (Gen/VersionedShape.v); lemmas "
+             "gen_*_ok check them by computation and the C17_src_* theorems are the instances at the current tables. Both "
+             "models, instantiated at the generated tables, are compared with typedpy inside Coq (vm_compute) on a corpus, a "
+             "deterministic lattice (every single / ordered pair of mapping-entry kinds) and seeded random histories. The "
+             "statement's clauses are evaluated on the implementation: convert_dict (version, composition through every "
+             "prefix, fixpoint, inputs and mapping objects intact by deep snapshot, user functions of exactly the pending "
+             "mappings run once each in order), and deserialization of Versioned classes whose fields are a random subset of "
+             "the latest keys (typed/untyped, trusted-eligible or not, _additional_properties unset/True/False) through 7 "
+             "entry points (Deserializer, deserialize_structure, nested field, Array, Map, Optional, subclass inheriting the "
+             "history) x keep_undefined x direct_trusted_mapping x camel_case_convert, old document vs its conversion "
+             "(outcome, exception class, ==, public attribute state incl. extra attributes), plus 8 ways of building a new "
+             "instance.",
+        design="DESIGN.md §6 C17, §12",
+        note="Trusted: Coq kernel + vm_compute; hand-written models Ser/Versioned.v, Ser/VersionedDeser.v (validated by "
+             "correspondence, not derived); recognisers in harness/genmods/versioned_shape.py (fail closed: an unrecognised "
+             "shape breaks gen_*_ok); FunctionCall functions assumed pure; harness generators/reifier; CPython. 'Inputs not "
+             "modified' is trivial in the pure model and is decided on the implementation by deep snapshots. Typed fields "
+             "that transform values, nested/Array/Map/Optional entry points and camel_case_convert are outside the "
+             "deserialization model and decided on the implementation only. Theorems assume no top-level mapping entry "
+             "names the key 'version' and an int version >= 1.",
+        technique="Coq proof (induction over version history; characterisation parametric in tables generated from the "
+                  "source) + model/implementation correspondence in vm_compute + spec clauses on observed behaviour"),
 }
 
 CHECKS["C02"] = dict(
